@@ -490,7 +490,21 @@ class SimQueue:
         return len(self.q)
 
     def task_done(self) -> None:
+        if self.unfinished <= 0:
+            raise ValueError('task_done() called too many times')
         self.unfinished -= 1
+
+    def join(self) -> None:
+        sim = self.sim
+        sim.yield_('q.join')
+        if self.unfinished > 0:
+            sim.block(lambda: self.unfinished <= 0, 'q.join')
+
+    def full(self) -> bool:
+        return False
+
+    def put_nowait(self, x) -> None:
+        self.put(x)
 
 
 class SimLock:
